@@ -7,7 +7,8 @@
    every sorted id list, every split interval, with or without the split middleware, and every
    history of range queries with step > 0 and 0 <= start <= end — any mixture of steps, so the
    lower-step cache path is included:
-     C42_history: every answer equals direct evaluation of the (step-aligned) query, the run
+     C42_history: whatever fetched responses are non-storable (no-store header, @ modifier
+     beyond the end), every answer equals direct evaluation of the (step-aligned) query, the run
      never fails, and the invariant "every cached extent is exact for its key" is preserved.
    Building blocks: extraction, MergeResponse of any number of exact pieces in any order
    (C42_merge_pieces_exact), partition cover (inside C42_do_cache_exact).
@@ -77,28 +78,31 @@ Print Assumptions C42_merge_pieces_exact.
 (* resultsCache.Do on a step-aligned request, in a cache whose extents are all exact: the
    answer is direct evaluation and the new cache again holds only exact extents (hit, lower-step
    hit and miss paths) *)
-Theorem C42_do_cache_exact : forall f sids, incr sids -> forall split c rs re st resp c',
+Theorem C42_do_cache_exact : forall f sids, incr sids -> forall sto split c rs re st resp c',
   0 < st -> (st | rs) -> (st | re) -> 0 <= rs -> rs <= re -> cache_ok f sids c ->
-  do_cache f sids split c rs re st = (resp, c') ->
+  do_cache f sids sto split c rs re st = (resp, c') ->
   resp = eval f sids rs re st /\ cache_ok f sids c'.
 Proof. exact do_cache_spec. Qed.
 Print Assumptions C42_do_cache_exact.
 
-(* any history, from any cache of exact extents: it runs to the end, every answer equals direct
+(* [sto] says which fetched responses may be stored (no Cache-Control: no-store, no @ modifier
+   beyond the request's end): it is arbitrary in these theorems — every fetched response goes
+   into the answer whatever it says, only the extents written back depend on it.
+   any history, from any cache of exact extents: it runs to the end, every answer equals direct
    evaluation, the invariant holds afterwards *)
-Theorem C42_history : forall f sids, incr sids -> forall split use_split, 0 < split -> forall qs c,
+Theorem C42_history : forall f sids, incr sids -> forall sto split use_split, 0 < split -> forall qs c,
   Forall query_ok qs -> cache_ok f sids c ->
-  exists rs c', history f sids split use_split c qs = Some (rs, c')
+  exists rs c', history f sids sto split use_split c qs = Some (rs, c')
     /\ rs = map (direct f sids) qs /\ cache_ok f sids c'.
 Proof. exact history_exact. Qed.
 Print Assumptions C42_history.
 
 (* the same from the empty cache, through the predicate the check evaluates on the
    implementation's answers *)
-Theorem C42_history_pred : forall d split use_split qs,
+Theorem C42_history_pred : forall d ns atm split use_split qs,
   incr (map fst d) -> 0 < split -> Forall query_ok qs ->
-  exists rs c, history (f_of d) (map fst d) split use_split [] qs = Some (rs, c)
-    /\ pred_ok (CHist split use_split d qs rs c) = true.
+  exists rs c, history (f_of d) (map fst d) (sto_of ns atm) split use_split [] qs = Some (rs, c)
+    /\ pred_ok (CHist split use_split d ns atm qs rs c) = true.
 Proof. exact history_pred. Qed.
 Print Assumptions C42_history_pred.
 
@@ -109,11 +113,11 @@ Print Assumptions C42_history_pred.
 Definition both_kinds (l : list (Z * list (Z * Z) * list (Z * Z))) : list series_desc :=
   flat_map (fun x => [(2 * fst (fst x), snd (fst x)); (2 * fst (fst x) + 1, snd x)]) l.
 
-Theorem C42_history_float_and_histogram : forall l split use_split qs,
+Theorem C42_history_float_and_histogram : forall l ns atm split use_split qs,
   incr (map (fun x => fst (fst x)) l) -> 0 < split -> Forall query_ok qs ->
   slice_keeps_equal = false /\
-  exists rs c, history (f_of (both_kinds l)) (map fst (both_kinds l)) split use_split [] qs = Some (rs, c)
-    /\ pred_ok (CHist split use_split (both_kinds l) qs rs c) = true.
+  exists rs c, history (f_of (both_kinds l)) (map fst (both_kinds l)) (sto_of ns atm) split use_split [] qs = Some (rs, c)
+    /\ pred_ok (CHist split use_split (both_kinds l) ns atm qs rs c) = true.
 Proof. exact history_kinds. Qed.
 Print Assumptions C42_history_float_and_histogram.
 
@@ -182,5 +186,6 @@ Qed.
 Example C42_history_nonvacuous :
   let d := [(0, [(0, 400000); (900000, 5000000)]); (3, [(-1000000, 9000000)])] in
   let qs := [(600000, 1200000, 60000); (0, 900000, 60000); (300000, 4200000, 60000)] in
-  option_map fst (history (f_of d) [0; 3] 3600000 true [] qs) = Some (map (direct (f_of d) [0; 3]) qs).
+  option_map fst (history (f_of d) [0; 3] (sto_of [(0, 300000)] (Some 1000000)) 3600000 true [] qs)
+  = Some (map (direct (f_of d) [0; 3]) qs).
 Proof. vm_compute. reflexivity. Qed.
